@@ -18,6 +18,7 @@ TRUSTED = ["numpy.polynomial.legendre.leggauss", "numpy long double Horner evalu
 ASSUMPTIONS = ["for a>b the rule is the mirrored one (nodes from a down to b, negative weights)",
                "a call with npts=None after an explicit override is judged with the point count then in effect",
                "offset intervals keep |b-a| >= 1e-3 max(|a|,|b|) so that node spacing exceeds rounding"]
+THOROUGH_ROUNDS = 20      # the thorough tier runs the generator over this many derived seeds
 REQUIRED = {"quick": {"C17.rule": 200, "C17.poly": 100, "C17.qgauss": 300, "C17.qgauss2": 60},
             "thorough": {"C17.rule": 1500, "C17.poly": 1500, "C17.qgauss": 5000, "C17.qgauss2": 1000}}
 LD = np.longdouble
@@ -249,7 +250,7 @@ def _o_qgauss2(call):
     area = abs((x2 - x1) * (y2 - y1))
     band = 6e-9 * area * (float(np.abs(F).max()) + abs(x2 - x1) * float(dfx) + abs(y2 - y1) * float(dfy))
     got = LD(call.result)
-    if abs(got - exp) <= 1e-12 * abs(exp) + band:
+    if abs(got - exp) <= 1e-12 * abs(exp) + band + LD(1e-300):       # integrands that underflow: no relative precision below 1e-300
         COL.ok("C17.qgauss2", ("qgauss2", nx, ny))
     else:
         COL.violation("C17.qgauss2", "QGauss2(%d,%d) returned %r; tensor-product sum is %r" % (nx, ny, float(got), float(exp)), wit)
